@@ -13,7 +13,8 @@ import (
 )
 
 var (
-	ErrInvalidLength = errors.New("invalid signature length")
+	ErrInvalidLength     = errors.New("invalid signature length")
+	ErrInvalidRecoveryID = errors.New("invalid signature recovery id")
 )
 
 type Signer interface {
@@ -45,6 +46,12 @@ func hashWithEthereumPrefix(data []byte) ([]byte, error) {
 func Recover(signature, data []byte) (*ecdsa.PublicKey, error) {
 	if len(signature) != 65 {
 		return nil, ErrInvalidLength
+	}
+	// Only the canonical recovery ids produced by sign (27..30) are accepted.
+	// btcec ignores the "compressed key" flag (v+4) when recovering, so without
+	// this check two different encodings of a signature recover the same key.
+	if v := signature[64]; v < 27 || v > 30 {
+		return nil, ErrInvalidRecoveryID
 	}
 	// Convert to btcec input format with 'recovery id' v at the beginning.
 	btcsig := make([]byte, 65)
